@@ -1,5 +1,6 @@
 import GSProofs.Lemmas.MsgQueueReach
 import GSProofs.Lemmas.MsgQueueLog2
+import GSProofs.Lemmas.MsgQueueNotes
 import GSProofs.C13
 /-!
 # C15 — Memory accounted to a peer matches its unsent response data
@@ -25,17 +26,19 @@ Every theorem quantifies over
 granted to callers that have not reached `buildMessage` yet.
 
 Full statement (S): in every reachable state `AllocatedForPeer(p) = held`, and a queue that has
-exited holds nothing.  (S) is FALSE of the code in two regions, each with a counterexample theorem:
-(a) after the queue goroutine has exited (`pc = .exited`; `dead_queue_counterexample`: a transaction
-that reaches `buildMessage` through a stale handle reserves memory nobody will release — known finding
-`dead-queue-leak`; note that a build while the goroutine is still in its deferred exit, `pc = .exiting`,
-is covered by the theorems); (b) while another queue of the same peer is alive
-(`successor_wiped_counterexample`, known finding `overlap-release-wipes-successor`, a consequence of
-the C17 finding `overlap-shutting-down`).  Proved: (S) for every state reachable by a schedule without
-a second queue of the same peer (`SoloReachable`; other peers unrestricted) in which the queue
-goroutine has not exited (`exactly_once_partial`, `exactly_once_sums`), zero at idle (`idle_zero`),
-zero at the moment of exit (`exit_zero`).  `reserved_first` and `log_is_allocator_history` hold for
-ALL schedules (`Reachable`).
+exited holds nothing.  Since the fix `fix: messagequeue: fail messages built on a closed queue`
+(a transaction that reaches `buildMessage` after the queue goroutine took the `done` branch is
+rejected: subscribers told `Error`, reservation returned) (S) holds before AND after the goroutine's
+exit (`exactly_once_partial`, `exactly_once_sums`, `idle_zero`, `exit_zero`; the old behaviour is kept
+as the regression witness `dead_queue_regression`).  (S) remains FALSE of the code in two regions, each
+with a counterexample theorem and excluded by a recorded assumption on the schedule:
+(a) `cleanFrom`: the goroutine's deferred `ReleasePeerMemory` runs while a caller whose reservation has
+been GRANTED has not yet reached `buildMessage` (`wiped_waiter_counterexample`; that caller's bytes are
+wiped, its later release is a no-op unless the peer has a new entry — known finding
+`dead-queue-over-release`, narrowed to this window);
+(b) `soloFrom`: another queue of the same peer is alive (`successor_wiped_counterexample`, known finding
+`overlap-release-wipes-successor`, a consequence of the C17 finding `overlap-shutting-down`).
+`reserved_first` and `log_is_allocator_history` hold for ALL schedules (`Reachable`).
 -/
 namespace GS.C15
 open GS.MQ GS.Alloc
@@ -47,32 +50,36 @@ def Reachable (pick : Pick) (peer mr mt mp : Nat) (s : MQ.State) : Prop :=
   ∃ acts : List Act, s = runActs pick (init peer mr mt mp) acts
 
 /-- … by a schedule in which this queue is the only queue of its peer that touches the allocator
-    (the recorded assumption "one live queue per peer"; other peers are unrestricted) -/
+    (`soloFrom`: the recorded assumption "one live queue per peer"; other peers are unrestricted) and
+    whose exit step, if any, finds no granted reservation on its way to `buildMessage` (`cleanFrom`) -/
 def SoloReachable (pick : Pick) (peer mr mt mp : Nat) (s : MQ.State) : Prop :=
-  ∃ acts : List Act, soloFrom pick (init peer mr mt mp) acts = true ∧ s = runActs pick (init peer mr mt mp) acts
+  ∃ acts : List Act, soloFrom pick (init peer mr mt mp) acts = true ∧ cleanFrom pick (init peer mr mt mp) acts = true ∧
+    s = runActs pick (init peer mr mt mp) acts
 
 theorem SoloReachable.reachable {pick : Pick} {peer mr mt mp : Nat} {s : MQ.State}
     (h : SoloReachable pick peer mr mt mp s) : Reachable pick peer mr mt mp s := by
-  obtain ⟨acts, _, rfl⟩ := h; exact ⟨acts, rfl⟩
+  obtain ⟨acts, _, _, rfl⟩ := h; exact ⟨acts, rfl⟩
 
 section
 variable {pick : Pick} (hp : Admissible pick) {peer mr mt mp : Nat} (ht : mt < W) (hm : mp < W)
 include hp ht hm
 
 theorem SoloReachable.inv {s : MQ.State} (h : SoloReachable pick peer mr mt mp s) : I s := by
-  obtain ⟨acts, hs, rfl⟩ := h
-  exact runActs_I hp (Or.inr (init_LInv ht hm)) acts hs
+  obtain ⟨acts, hs, hc, rfl⟩ := h
+  exact runActs_I hp (init_I ht hm) acts hs hc
 
-/-- **Exactly once (the ledger), partial = until the queue goroutine has exited.**  On every
-    schedule, in every state, the bytes the allocator accounts to the peer are exactly the bytes
-    held by queued builders, by the message in flight and by granted-but-not-yet-built reservations:
-    every reserved byte that has left these three places has been released, and none twice
-    (`AllocatedForPeer = granted − released` is C13's `ledger`). -/
-theorem exactly_once_partial {s : MQ.State} (h : SoloReachable pick peer mr mt mp s) (hne : s.pc ≠ .exited) :
-    allocatedFor s.alloc s.peer = heldBuilders s + heldInFlight s + heldGranted s := by
-  rcases h.inv hp ht hm with h' | h'
-  · exact absurd h' hne
-  · exact h'.ledger
+/-- **Exactly once (the ledger)** — partial only in the two schedule assumptions of `SoloReachable`;
+    it holds before and after the queue goroutine's exit.  In every state the bytes the allocator
+    accounts to the peer are exactly the bytes held by queued builders, by the message in flight and by
+    granted-but-not-yet-built reservations: every reserved byte that has left these three places has
+    been released, and none twice (`AllocatedForPeer = granted − released` is C13's `ledger`). -/
+theorem exactly_once_partial {s : MQ.State} (h : SoloReachable pick peer mr mt mp s) :
+    allocatedFor s.alloc s.peer = heldBuilders s + heldInFlight s + heldGranted s :=
+  (h.inv hp ht hm).1.ledger
+
+/-- a queue whose goroutine took the `done` branch never holds a queued builder again -/
+theorem closed_queue_empty {s : MQ.State} (h : SoloReachable pick peer mr mt mp s) (hc : s.closed = true) :
+    s.builders = [] := (h.inv hp ht hm).2 hc
 
 /-- **Idle ⇒ zero.**  When nothing is queued, nothing is in flight and no caller holds a granted
     reservation, the peer's accounted memory is 0 — whatever happened before (failures, scrubbing,
@@ -80,8 +87,7 @@ theorem exactly_once_partial {s : MQ.State} (h : SoloReachable pick peer mr mt m
 theorem idle_zero {s : MQ.State} (h : SoloReachable pick peer mr mt mp s) (hpc : s.pc = .idle)
     (hb0 : ∀ b ∈ s.builders, b.empty = true) (hw : ∀ w ∈ s.waiters, w.answer = none) :
     allocatedFor s.alloc s.peer = 0 := by
-  rcases h.inv hp ht hm with h' | h'
-  · rw [hpc] at h'; cases h'
+  have h' := (h.inv hp ht hm).1
   · have hl := h'.ledger
     have h1 : heldBuilders s = 0 := by
       rw [heldBuilders_eq]
@@ -108,17 +114,13 @@ theorem idle_zero {s : MQ.State} (h : SoloReachable pick peer mr mt mp s) (hpc :
     deferred function of `runQueue`) leaves nothing accounted to the peer. -/
 theorem exit_zero {s : MQ.State} (h : SoloReachable pick peer mr mt mp s) (hpc : s.pc = .exiting) (ok : Bool) :
     allocatedFor (s.ack pick ok).alloc s.peer = 0 ∧ (s.ack pick ok).pc = .exited := by
-  have hinv : Alloc.Inv s.alloc := by
-    rcases h.inv hp ht hm with h' | h'
-    · rw [hpc] at h'; cases h'
-    · exact h'.led.1.ainv
+  have hinv : Alloc.Inv s.alloc := (h.inv hp ht hm).1.led.1.ainv
   unfold State.ack
   rw [hpc]
   simp only
   refine ⟨?_, trivial⟩
-  have hf := pubShutdown_frame (s.allocStep pick (.releasePeer s.peer)).1
-  show allocatedFor ((s.allocStep pick (.releasePeer s.peer)).1.pubShutdown.emit [Event.exitCallback]).alloc s.peer = 0
-  rw [(emit_frame _ _).alloc, hf.alloc]
+  show allocatedFor ((s.allocStep pick (.releasePeer s.peer)).1.emit [Event.exitCallback]).alloc s.peer = 0
+  rw [(emit_frame _ _).alloc]
   exact (releasePeer_own hp hinv s.peer).2.2.2
 
 end
@@ -139,18 +141,18 @@ section
 variable {pick : Pick} (hp : Admissible pick) {peer mr mt mp : Nat} (ht : mt < W) (hm : mp < W)
 include hp ht hm
 
-/-- **Exactly once, as sums over the whole history** (partial = until the queue goroutine exits):
+/-- **Exactly once, as sums over the whole history** (partial = under the assumptions of `SoloReachable`):
     the bytes ever granted to the peer = the bytes ever released by it + the bytes still held by
     queued builders, the message in flight and granted-but-not-yet-built reservations.  Together
     with C13 `release_clamped` (a release never exceeds what is accounted) no byte is released twice
     and none is forgotten. -/
-theorem exactly_once_sums {s : MQ.State} (h : SoloReachable pick peer mr mt mp s) (hne : s.pc ≠ .exited) :
+theorem exactly_once_sums {s : MQ.State} (h : SoloReachable pick peer mr mt mp s) :
     grantedSum s.peer (memOf s.log) =
       releasedSum s.peer (memOf s.log) + (heldBuilders s + heldInFlight s + heldGranted s) := by
   obtain ⟨ops, h1, h2⟩ := log_is_allocator_history h.reachable
   have hl := GS.C13.ledger_sums hp ht hm ops s.peer
   rw [← h1, ← h2] at hl
-  have := exactly_once_partial hp ht hm h hne
+  have := exactly_once_partial hp ht hm h
   omega
 
 end
@@ -165,17 +167,45 @@ theorem reserved_first {pick : Pick} {peer mr mt mp : Nat} {s : MQ.State} (h : R
   obtain ⟨acts, rfl⟩ := h
   exact ((runActs_ext pick (init peer mr mt mp) acts).rfw (init_RFW peer mr mt mp)).built t topic size used hb hs
 
-/-- **(S) is false after the queue goroutine has exited** (known finding `dead-queue-leak`):
-    Shutdown, the loop takes the done branch, the goroutine exits; then a transaction with a
-    1000-byte block is built through a stale handle: 1000 bytes are accounted to the peer of a queue
-    that will never send or release them (every later `run`/`ack` is a no-op, `ack_exited`). -/
-theorem dead_queue_counterexample :
-    ∃ s, SoloReachable pickMin 0 1 (2^30) (2^30) s ∧ s.pc = .exited ∧ allocatedFor s.alloc s.peer = 1000 ∧
-      (∀ ok, s.ack pickMin ok = s) ∧ (∀ pw, s.run pickMin pw = s) :=
-  ⟨runActs pickMin (init 0 1 (2^30) (2^30))
-      [.shutdown, .run true, .ack true,
-       .build { who := .response, req := 0, sub := 0, items := [.block 1 1000 true] }],
-    ⟨_, by decide, rfl⟩, by decide, by decide, fun ok => ack_exited _ _ _ (by decide), fun pw => run_exited _ _ _ (by decide)⟩
+/-- **Regression witness of the repaired defect `dead-queue-leak`** (fixed by `fix: messagequeue: fail
+    messages built on a closed queue`).  Shutdown, the loop takes the done branch, the goroutine exits;
+    then a transaction with a 1000-byte block is built through a stale handle.  With the OLD
+    `buildMessage` 1000 bytes stay accounted to the peer of a queue that will never send or release
+    them (every later `run`/`ack` is a no-op) and the subscriber is told nothing; with the repaired one
+    nothing stays accounted, nothing is queued, and the subscriber has `[Error, close]`. -/
+theorem dead_queue_regression :
+    (∃ s, s = MQ.buildOld pickMin (runActs pickMin (init 0 1 (2^30) (2^30)) [.shutdown, .run true, .ack true])
+        { who := .response, req := 0, sub := 7, items := [.block 1 1000 true] } ∧
+      s.pc = .exited ∧ allocatedFor s.alloc s.peer = 1000 ∧ seqOf 7 0 s.log = [] ∧
+      (∀ ok, s.ack pickMin ok = s) ∧ (∀ pw, s.run pickMin pw = s)) ∧
+    (∃ s, SoloReachable pickMin 0 1 (2^30) (2^30) s ∧
+      s = runActs pickMin (init 0 1 (2^30) (2^30)) [.shutdown, .run true, .ack true,
+        .build { who := .response, req := 0, sub := 7, items := [.block 1 1000 true] }] ∧
+      s.pc = .exited ∧ allocatedFor s.alloc s.peer = 0 ∧ s.builders = [] ∧
+      seqOf 7 0 s.log = [.error, .close] ∧ 0 ∈ s.closedStreams) :=
+  ⟨⟨_, rfl, by decide, by decide, by decide, fun ok => ack_exited _ _ _ (by decide), fun pw => run_exited _ _ _ (by decide)⟩,
+   ⟨_, ⟨_, by decide, by decide, rfl⟩, rfl, by decide, by decide, by decide, by decide, by decide⟩⟩
+
+/-- **(S) is false when the goroutine exits while a granted reservation is on its way to
+    `buildMessage`** (the assumption dropped is `cleanFrom`; known finding `dead-queue-over-release`,
+    narrowed to this window).  Peer limit 1500: message 0 (1000 bytes) is in flight, the caller of
+    message 1 (1000 bytes) waits; message 0 is sent, its release grants the waiter's reservation; before
+    the waiter continues the queue is shut down and its goroutine exits: `ReleasePeerMemory` wipes the
+    granted 1000 bytes — 0 accounted, 1000 held by the caller.  When the caller continues its message
+    is rejected and `ReleaseBlockMemory(1000)` finds no entry (a no-op here; with a successor queue's
+    entry present it would take 1000 of the successor's bytes). -/
+theorem wiped_waiter_counterexample :
+    ∃ s, Reachable pickMin 0 1 (2^30) 1500 s ∧ soloFrom pickMin (init 0 1 (2^30) 1500)
+        [.build { who := .response, req := 0, sub := 0, items := [.block 1 1000 true] }, .run true, .ack true,
+         .build { who := .response, req := 1, sub := 1, items := [.block 2 1000 true] }, .ack true,
+         .shutdown, .run false, .ack true] = true ∧
+      s.pc = .exited ∧ heldGranted s = 1000 ∧ allocatedFor s.alloc s.peer = 0 ∧
+      MQ.Event.mem .errNoPeer ∈ (MQ.step pickMin s (.wake 1)).log ∧ MQ.Event.mem .errNoPeer ∉ s.log :=
+  ⟨runActs pickMin (init 0 1 (2^30) 1500)
+      [.build { who := .response, req := 0, sub := 0, items := [.block 1 1000 true] }, .run true, .ack true,
+       .build { who := .response, req := 1, sub := 1, items := [.block 2 1000 true] }, .ack true,
+       .shutdown, .run false, .ack true],
+    ⟨_, rfl⟩, by decide, by decide, by decide, by decide, by decide, by decide⟩
 
 /-- **(S) is false while two queues of one peer overlap** (known finding
     `overlap-release-wipes-successor`; the assumption dropped is `SoloReachable`): this queue (the
@@ -203,6 +233,6 @@ example : ∃ s, SoloReachable pickMin 0 1 (2^30) 700000 s ∧ s.pc ≠ .exited 
        .run true, .ack true,
        .build { who := .response, req := 1, sub := 1, items := [.block 2 600000 true] },
        .build { who := .response, req := 0, sub := 0, items := [.block 3 300000 true] }],
-    ⟨_, by decide, rfl⟩, by decide, by decide, by decide, by decide, by decide⟩
+    ⟨_, by decide, by decide, rfl⟩, by decide, by decide, by decide, by decide, by decide⟩
 
 end GS.C15
